@@ -757,7 +757,14 @@ class ParallelProcess(Process):
         '''
         if run_pre_check:
             self.pre_send_command(command, args, kwargs)
-        self.parent.send((command, args, kwargs))
+        try:
+            self.parent.send((command, args, kwargs))
+        except BaseException:
+            # Nothing is on its way (e.g. the arguments could not be
+            # pickled), so no command is pending.
+            if run_pre_check:
+                self._pending_command = None
+            raise
 
     def get_command_result(self) -> Update:
         """Get the result of a command sent to the parallel process.
@@ -857,12 +864,19 @@ class ParallelProcess(Process):
         # Only end once.
         if self._ended:
             return
-        self.send_command('end')
-        if self.profile:
-            stats = pstats.Stats()
-            stats.stats = self.get_command_result()  # type: ignore
-            assert self._stats_objs is not None
-            self._stats_objs.append(stats)
+        # A worker that died (the model code raised in it) cannot be
+        # told to stop: it is only reaped.
+        if self.multiprocess.is_alive():
+            try:
+                self.send_command('end')
+                if self.profile:
+                    stats = pstats.Stats()
+                    stats.stats = self.get_command_result()  # type: ignore
+                    assert self._stats_objs is not None
+                    self._stats_objs.append(stats)
+            except (BrokenPipeError, EOFError, ConnectionError):
+                # the worker died in the meantime
+                pass
         self.multiprocess.join()
         self.multiprocess.close()
         self._ended = True
